@@ -1,4 +1,4 @@
-HOOK_COMMITS = ["b7b7dfc", "f268d05", "2772870", "485ecb4", "f05d093", "29742e3"]
+HOOK_COMMITS = ["b7b7dfc", "f268d05", "2772870", "485ecb4", "f05d093", "29742e3","9c1ee60"]
 # properties whose checks are integrated and reviewed by the coordinator; others stay under not_applicable
 CLAIMED = ["C01", "C02", "C03", "C04", "C05", "C06", "C07", "C08", "C09", "C10", "C11", "C12", "C13", "C14", "C15", "C16", "C17", "C18", "C19"]
 NOT_YET = {}
